@@ -34,7 +34,7 @@ IVALS = [0, 1, 2, 3, 7, 255, 16384, 32766, 32767]
 LVALS = [0, 1, 2, 3, 32768, 65536, 46341, 2147483646, 2147483647]
 SVALS = ['0!', '0.5', '1.5', '2.5', '1!', '3!', '0.1', '32767.5', '16777216!', '3.4E+38', '1E-38', '2.147484E+9', '1E+20']
 DVALS = ['0#', '0.5#', '1.5#', '2.5#', '1#', '3#', '0.1#', '32768.5#', '2147483647.5#', '4D+9', '1D+308', '1D-308', '1D+20']
-STRS = ['""', '"a"', '"b"', '"ab"', '"A"']
+STRS = ['""', '"a"', '"b"', '"ab"', '"A"', '"a "', '" "', '"~"', '"\u00e9"', '"\u00e2"', '"\u00ff"', '"\u00c7"', '"a\u00e9"']   # incl. cp437 letters whose code-page order differs from their Unicode order
 BINOPS = ['+', '-', '*', '/', '\\', 'MOD', '^', '=', '<>', '<', '>', '<=', '>=', 'AND', 'OR', 'XOR', 'EQV', 'IMP']
 UNOPS = ['-', 'NOT', '+']
 
@@ -190,6 +190,21 @@ CONST_HEAVY = [
     "FOR i% = 1 TO 2 + 1\nPRINT i%;\nNEXT\n",
     "SELECT CASE 2 + 3\nCASE 5\nPRINT \"five\"\nCASE ELSE\nPRINT \"other\"\nEND SELECT\n",
 ]
+# every ordered pair of the grid's string constants under every comparison (the folder and the VM implement string order
+# separately), literal against literal and constant against constant
+for _op in ('=', '<>', '<', '>', '<=', '>='):
+    _t = ''
+    for _a in STRS:
+        _t += 'PRINT ' + '; '.join(f'{_a} {_op} {_b}' for _b in STRS) + '\n'
+    CONST_HEAVY.append(_t)
+_t = ''.join(f'CONST zc{_i}$ = {_a}\n' for _i, _a in enumerate(STRS))
+for _i in range(len(STRS)):
+    _t += 'PRINT ' + '; '.join(f'zc{_i}$ < zc{_j}$; zc{_i}$ >= zc{_j}$' for _j in range(len(STRS))) + '\n'
+CONST_HEAVY.append(_t)
+_t = ''.join(f'zv{_i}$ = {_a}\n' for _i, _a in enumerate(STRS))
+for _i, _a in enumerate(STRS):
+    _t += 'PRINT ' + '; '.join(f'{_a} < zv{_j}$; zv{_j}$ <= {_a}' for _j in range(len(STRS))) + '\n'
+CONST_HEAVY.append(_t)
 
 
 def run_level(case):
